@@ -37,11 +37,18 @@ func c19Repro(spec string) {
 	for len(cs.Skew) < cs.G {
 		cs.Skew = append(cs.Skew, 0)
 	}
-	diffs := 0
+	diffs, seqdiffs := 0, 0
 	for n := 0; n < rounds; n++ {
 		var alone []string
 		for _, call := range cs.Calls {
 			alone = append(alone, c19Exec(c19Build(&cs), call))
+		}
+		// one goroutine, one shared value, the calls one after the other
+		shs := c19Build(&cs)
+		for k, call := range cs.Calls {
+			if c19Exec(shs, call) != alone[k] {
+				seqdiffs++
+			}
 		}
 		sh := c19Build(&cs)
 		res := c19RunCase(&cs, sh, 60*time.Second)
@@ -58,5 +65,5 @@ func c19Repro(spec string) {
 			}
 		}
 	}
-	fmt.Printf("rounds=%d diffs=%d\n", rounds, diffs)
+	fmt.Printf("rounds=%d diffs=%d (concurrent vs alone) seqdiffs=%d (sequential on one shared value vs alone)\n", rounds, diffs, seqdiffs)
 }
